@@ -38,11 +38,12 @@ DiffAvg(v, a, L) ==
 Dist(metric, v, a, L) == IF metric = "euclidean" \/ L = 1 THEN Euclid2(v, a, L) ELSE DiffAvg(v, a, L)
 
 ValCol(c, invs, L) == [ l \in 1..L |-> invs[c[l] + 1] ]
-\* all candidates at minimal distance (ties: every minimiser is acceptable)
+\* all candidates at minimal distance (ties: every minimiser is acceptable).
+\* (TLC note: operator arguments are re-evaluated at every use; binding them with "x \in {expr}" evaluates once.)
 Minimisers(metric, v, cands, invs, L) ==
-    LET d == TLCEval([ c \in cands |-> Dist(metric, v, ValCol(c, invs, L), L) ])
-        m == TLCEval(MinOf({ d[c] : c \in cands }))
-    IN  { c \in cands : d[c] = m }
+    UNION { UNION { UNION { { c \in cc : d[c] = m } : m \in { MinOf({ d[x] : x \in cc }) } }
+                    : d \in { [ c \in cc |-> Dist(metric, vv, ValCol(c, invs, L), L) ] } }
+            : vv \in { v }, cc \in { cands } }
 
 \* ---------- materials ----------
 \* eps: permittivities in dictionary order, pairwise distinct (any common unit);
